@@ -4,7 +4,12 @@
    values the name can have there.  Each program carries what the REAL supp answered for every read:
         rd[r] = [id, vis (the name is in the table Flow.names_at gives for that position: informational), e02, e42
                  (lint flags the read), assist (name completion at the end of the identifier offers it)]
+                 alts (binding sites supp associates with the read; -1 builtin, -2 not a site of the program)]
+        unused = binding sites reported W01 / W02
    Clause Visible (C01): a read that obtains a value in some execution is visible to supp: no E02 / E42, offered.
+   Clauses DefIncluded, NoFalseUnused (C02, whose domain is reads whose binding is in the same function / lambda / class /
+   module body): every site of the read's own body that some execution reads there is among supp's alternatives, and is
+   not reported unused.  (Sites bound under a global / nonlocal declaration belong to another scope's variable.)
    (vis is not required: module variables created through a `global` declaration are kept beside the region tables.)  *)
 EXTENDS PyScope, TLCExt
 
@@ -20,17 +25,39 @@ Accumulate ==
   ELSE TRUE
 
 SeenOf(p, r) == {q[2] : q \in {q \in TLCGet(p) : q[1] = r}}
-Fail(p, clause, r, detail) == PrintT(ToJson(<<"VFAIL", "C01", Programs[p].id, clause, <<r, detail>> >>))
+Fail(p, prop, clause, r, detail) == PrintT(ToJson(<<"VFAIL", prop, Programs[p].id, clause, <<r, detail>> >>))
+
+\* ---- C02 inside nested bodies: a read that obtains the value bound at a site of ITS OWN body lists that site -----------
+PN(p, i) == Programs[p].nodes[i]
+PS(p, i) == Programs[p].scopes[i]
+BindNodes(p, v) == {i \in 1..Len(Programs[p].nodes) : PN(p, i).k \in BindKinds /\ PN(p, i).s = v}
+ParamScopes(p, v) == {sc \in 1..Len(Programs[p].scopes) : \E j \in 1..Len(PS(p, sc).params) : PS(p, sc).params[j].s = v}
+SiteScope(p, v) == IF BindNodes(p, v) # {} THEN PN(p, CHOOSE i \in BindNodes(p, v) : TRUE).o
+                   ELSE IF ParamScopes(p, v) # {} THEN CHOOSE sc \in ParamScopes(p, v) : TRUE ELSE 0
+ReadNodes(p, r) == {i \in 1..Len(Programs[p].nodes) : PN(p, i).k \in {"read", "call"} /\ PN(p, i).s = r}
+ReadScope(p, r) == PN(p, CHOOSE i \in ReadNodes(p, r) : TRUE).o
+ReadName(p, r) == PN(p, CHOOSE i \in ReadNodes(p, r) : TRUE).n
+Redirected(p, sc, n) == n \in ToSet(PS(p, sc).gl) \/ n \in ToSet(PS(p, sc).nl)     \* binds another scope's variable
+SameBody(p, r, v) == v > 0 /\ SiteScope(p, v) = ReadScope(p, r) /\ ~Redirected(p, ReadScope(p, r), ReadName(p, r))
 
 JudgeRead(p, i) ==
   LET o == Programs[p].rd[i]
       seen == SeenOf(p, o.id)
       bound == \E v \in seen : v # UNBOUND
-      ok == bound => (~o.e02 /\ ~o.e42 /\ o.assist) IN
-  IF ok THEN TRUE ELSE Fail(p, "Visible", o.id, <<o.vis, o.e02, o.e42, o.assist, seen>>)
+      ok == bound => (~o.e02 /\ ~o.e42 /\ o.assist)
+      own == {v \in seen : SameBody(p, o.id, v)}
+      inc == own \subseteq ToSet(o.alts) IN
+  /\ (IF ok THEN TRUE ELSE Fail(p, "C01", "Visible", o.id, <<o.vis, o.e02, o.e42, o.assist, seen>>))
+  /\ (IF inc THEN TRUE ELSE Fail(p, "C02", "DefIncluded", o.id, <<own, o.alts>>))
+
+\* a binding that a read of its own body obtains in some execution is not reported unused
+JudgeUnused(p) ==
+  LET used == UNION {{v \in SeenOf(p, Programs[p].rd[i].id) : SameBody(p, Programs[p].rd[i].id, v)} : i \in 1..Len(Programs[p].rd)}
+      bad == ToSet(Programs[p].unused) \cap used IN
+  IF bad = {} THEN TRUE ELSE Fail(p, "C02", "NoFalseUnused", 0, bad)
 
 Post ==
-  /\ \A p \in 1..NP : \A i \in 1..Len(Programs[p].rd) : JudgeRead(p, i)
+  /\ \A p \in 1..NP : (\A i \in 1..Len(Programs[p].rd) : JudgeRead(p, i)) /\ JudgeUnused(p)
   /\ PrintT(ToJson(<<"VDONE", "PYSCOPE", NP, NP, 0>>))
   /\ PrintT(ToJson(<<"SEEN", [p \in 1..NP |-> [id |-> Programs[p].id, s |-> TLCGet(p)]]>>))
 =============================================================================
